@@ -45,8 +45,15 @@ func ExtractMatrices(M tensor.Tensor, nMatrices, nDimensions, hiddenSize int) ([
 			allSlices[i] = nil
 		}
 
-		m, err := M.Slice(allSlices...)
+		view, err := M.Slice(allSlices...)
 		if err != nil {
+			return nil, err
+		}
+
+		// Slicing drops every sliced dimension that is left with a single element (which happens
+		// for a hidden size of 1), so restore the shape (hidden_size, ...).
+		m := view.Materialize()
+		if err := m.Reshape(append([]int{hiddenSize}, M.Shape()[2:]...)...); err != nil {
 			return nil, err
 		}
 
